@@ -77,7 +77,7 @@ type c02Txn struct {
 
 func TestC02(t *testing.T) {
 	V.Rule("lab: (a) responses with 1-6 Via entries over 1-6 header lines (full/compact/odd-case names, ',' / ', ' joins), the entry beneath the top one naming a harness endpoint by IPv4 literal or host-table name (or an unresolvable name), transports UDP/TCP/udp/Tcp and unsupported TLS/SCTP/WS, port present or absent (5060), received / rport absent / valueless / numeric / non-numeric, maddr, ttl, unknown parameters in any order, malformed second entries, every status class, sent from backend and non-backend addresses; (b) rapid state-machine histories over 4 user agents (UDP and TCP ingress, own Via stacks of 1-3 entries, rport requested or not) and UDP/TCP backends answering outstanding transactions in any order, 1xx before final. Oracle: (a) reference model for the destination (received over sent-by host; numeric rport over sent-by port only with received; default 5060; unsupported transport, unresolvable host, no or undecodable remaining Via => nothing), exactly one reception there and nothing elsewhere after a FIFO barrier, remaining Via entries textually intact and in order; (b) the response arrives at the socket/connection the request came from with exactly the Via stack the user agent sent (first entry modulo received/rport). non-trivial = >= 3 Via entries in >= 2 lines, or received/rport present, or a drop case; for (b) >= 2 transactions open at once; distinct by message / history")
-	V.Require("relayed:udp", "relayed:tcp", "drop:unsupported transport", "drop:no remaining via", "drop:malformed via", "drop:unresolvable host", "received present", "rport numeric with received", "rport without received (ignored)", "port absent (5060)", ">=3 vias in >=2 lines", "history: >=2 transactions open", "history: answered out of order", "history: tcp ingress", "history: tcp backend")
+	V.Require("same Via lines sent again", "relayed:udp", "relayed:tcp", "drop:unsupported transport", "drop:no remaining via", "drop:malformed via", "drop:unresolvable host", "received present", "rport numeric with received", "rport without received (ignored)", "port absent (5060)", ">=3 vias in >=2 lines", "history: >=2 transactions open", "history: answered out of order", "history: tcp ingress", "history: tcp backend")
 	svc, err := newStdSvc(stdVariant{NoReceived: [3]string{"", "true", ""}})
 	if err != nil {
 		V.HarnessError(t, "cannot start lab instance: %v", err)
@@ -255,6 +255,39 @@ func TestC02(t *testing.T) {
 		for i, v := range p.Vias[1:] {
 			if outE[i] != v.String() {
 				failf(rt, "remaining Via entry %d changed or moved:\n in: %q\nout: %q", i, v.String(), outE[i])
+			}
+		}
+		// a later response of the same transaction carries the same Via lines
+		// (180 then 200, or a retransmission): it must be handled the same way
+		reps := rapid.IntRange(0, 2).Draw(rt, "same Via lines again")
+		for r := 0; r < reps; r++ {
+			m2 := msg.Clone()
+			m2.Code = gStatus(rt, "code again")
+			wire2 := m2.Bytes()
+			V.Journal(t.Name()+"/single", map[string]any{"first": jsonBytes(wire), "again": jsonBytes(wire2), "expected": expText})
+			s.in.expect(wire2)
+			if err := send(wire2); err != nil {
+				V.HarnessError(rt, "send: %v", err)
+			}
+			rs, err := s.in.settle(send, 1)
+			if _, lost := err.(labLost); lost {
+				failf(rt, "%v", err)
+			} else if err != nil {
+				V.HarnessError(rt, "%v", err)
+			}
+			got := labMessages(rs)
+			V.Class("same Via lines sent again")
+			if len(got) != 1 || !matchHop(got[0], hop) {
+				failf(rt, "response #%d with the same Via lines must again be relayed exactly once, to %+v; receptions:\n%s", r+2, hop, labDescribe(got))
+			}
+			outE := got[0].msg.Entries(hVia)
+			if len(outE) != len(p.Vias)-1 {
+				failf(rt, "response #%d with the same Via lines: exactly the top Via entry must be discarded: %d entries in, relayed %q", r+2, len(p.Vias), outE)
+			}
+			for i, v := range p.Vias[1:] {
+				if outE[i] != v.String() {
+					failf(rt, "response #%d with the same Via lines: remaining Via entry %d changed:\n in: %q\nout: %q", r+2, i, v.String(), outE[i])
+				}
 			}
 		}
 	})
